@@ -37,8 +37,8 @@ func govcTestCA(t *testing.T, kind string) *PrivateCA {
 	tmpl := &x509.Certificate{
 		SerialNumber:          big.NewInt(1),
 		Subject:               pkix.Name{CommonName: "govc test CA"},
-		NotBefore:             time.Now().Add(-time.Hour),
-		NotAfter:              time.Now().Add(24 * time.Hour),
+		NotBefore:             time.Now().Add(-30 * 24 * time.Hour), // a CA that has been in use for a month
+		NotAfter:              time.Now().Add(365 * 24 * time.Hour),
 		IsCA:                  true,
 		KeyUsage:              x509.KeyUsageCertSign,
 		BasicConstraintsValid: true,
